@@ -34,14 +34,13 @@ fn drain_range<const N: usize>(mut r: VRange<u32>, t: &HashTable<u32>, st: &St<N
 
 /// Split tree of depth <= 2 with symbolic split-or-consume decisions, optionally after consuming
 /// a symbolic number of items from the root first: the leaves partition the remaining FULL buckets.
-pub fn range_split<const N: usize>() {
+pub fn range_split<const N: usize>(pre: usize, shape: u8) {
     let (t, st) = mk_u32::<N>();
     let raw = hv::raw_of_table_ref(&t);
     let mut seen = [0u8; N];
     let mut root = VRange::of_table(raw);
-    // consume a prefix before splitting
-    let pre: usize = any();
-    assume(pre <= 2);
+    // consume a prefix before splitting (pre and the tree shape are concrete per instance: symbolic
+    // decisions multiply the number of drained leaves CBMC has to unroll)
     let mut j = 0;
     while j < 2 {
         if j < pre {
@@ -52,13 +51,13 @@ pub fn range_split<const N: usize>() {
         }
         j += 1;
     }
-    let d1: bool = any();
+    let d1 = shape != 0;
     if !d1 {
         drain_range::<N>(root, &t, &st, &mut seen);
     } else {
         let (l, r) = root.split();
-        let d2: bool = any();
-        let d3: bool = any();
+        let d2 = shape == 2 || shape == 4;
+        let d3 = shape == 3 || shape == 4;
         if d2 {
             let (ll, lr) = l.split();
             drain_range::<N>(ll, &t, &st, &mut seen);
@@ -79,7 +78,6 @@ pub fn range_split<const N: usize>() {
                 drain_range::<N>(r, &t, &st, &mut seen);
             }
         }
-        kani::cover!(d2 && d3, "depth-2 tree");
     }
     // each FULL bucket exactly once, nothing else
     let mut i = 0;
@@ -112,11 +110,10 @@ impl<const N: usize> Folder<hv::Bucket<u32>> for BitFolder<N> {
 }
 
 /// ParIterProducer: split once (or not), fold both halves with a never-full folder.
-pub fn par_iter_producer<const N: usize>() {
+pub fn par_iter_producer<const N: usize>(do_split: bool) {
     let (t, st) = mk_u32::<N>();
     let raw = hv::raw_of_table_ref(&t);
     let p = unsafe { hvr::v_par_iter_producer(raw) };
-    let do_split: bool = any();
     let mut total = [0u8; N];
     if do_split {
         let (l, r) = p.split();
@@ -172,7 +169,7 @@ impl Folder<D> for TakeFolder {
 /// ParDrainProducer: split (forgets self), left half folded by a consumer that becomes full after
 /// a symbolic number of items, right half either folded or dropped unconsumed. Every element is
 /// delivered or dropped exactly once; the guard's clear_no_drop leaves a valid empty table.
-pub fn par_drain_producer<const N: usize>() {
+pub fn par_drain_producer<const N: usize>(limit: usize, do_split: bool, fold_right: bool) {
     reset_ledger();
     let mut t: HashTable<D> = HashTable::with_capacity(capreq(N));
     let st = fill::<D, _, N>(hv::raw_of_table(&mut t), Spec { items: SYM, deleted: SYM, kind: InvKind::Safe, h: &ZH, distinct: true, id_is_slot: false, layout: None, concrete_tags: None });
@@ -180,10 +177,6 @@ pub fn par_drain_producer<const N: usize>() {
     {
         let raw = hv::raw_of_table_ref(&t);
         let p = unsafe { hvr::v_par_drain_producer(raw) };
-        let limit: usize = any();
-        assume(limit <= N);
-        let do_split: bool = any();
-        let fold_right: bool = any();
         if do_split {
             let (l, r) = p.split();
             let h1 = l.fold_with(TakeFolder { limit, got: 0, held: [0; K] }).complete();
@@ -204,7 +197,6 @@ pub fn par_drain_producer<const N: usize>() {
                     drop(r); // never handed to a consumer: its elements must be dropped
                 }
             }
-            kani::cover!(limit == 1 && st.items >= 3, "short-circuit with items left");
         } else {
             let h1 = p.fold_with(TakeFolder { limit, got: 0, held: [0; K] }).complete();
             held = h1;
